@@ -20,6 +20,7 @@ import (
 
 	abcicli "github.com/tendermint/tendermint/abci/client"
 	abci "github.com/tendermint/tendermint/abci/types"
+	"github.com/tendermint/tendermint/consensus"
 	"github.com/tendermint/tendermint/crypto"
 	"github.com/tendermint/tendermint/crypto/ed25519"
 	"github.com/tendermint/tendermint/crypto/merkle"
@@ -890,6 +891,52 @@ func execOp(a, b, c *replica, cur **blkT, op string) (out string) {
 		*cur = &bt
 		return fmt.Sprintf("maxdata=%d ntx=%d nev=%d %s fits=%v", a.mp.gotMax, a.mp.reaped, len(blk.Evidence.Evidence), blockLine(a, b, bt, m["evadm"] != "0"),
 			int64(blk.Size()) <= a.state.ConsensusParams.Block.MaxBytes)
+	case "votetime":
+		// block times are offsets from the local clock at the moment of the call
+		off := func(k string) (*int64, bool) {
+			v, ok := m[k]
+			if !ok {
+				return nil, false
+			}
+			if v == "nil" {
+				return nil, true
+			}
+			x := atoi(v)
+			return &x, true
+		}
+		lo, ok1 := off("locked")
+		po, ok2 := off("prop")
+		if !ok1 || !ok2 || m["iota"] == "" {
+			return "bad-op"
+		}
+		iota := atoi(m["iota"])
+		parsed = true
+		before := time.Now().UTC()
+		var lb, pb *types.Block
+		if lo != nil {
+			lb = &types.Block{Header: types.Header{Time: before.Add(time.Duration(*lo))}}
+		}
+		if po != nil {
+			pb = &types.Block{Header: types.Header{Time: before.Add(time.Duration(*po))}}
+		}
+		r := consensus.VerifVoteTime(lb, pb, iota)
+		after := time.Now().UTC()
+		cls := "other"
+		switch {
+		case lb != nil && r.Equal(lb.Time.Add(time.Duration(iota)*time.Millisecond)):
+			cls = "locked+iota"
+		case pb != nil && r.Equal(pb.Time.Add(time.Duration(iota)*time.Millisecond)):
+			cls = "proposal+iota"
+		case !r.Before(before) && !r.After(after):
+			cls = "now"
+		}
+		gt := func(b *types.Block) string {
+			if b == nil {
+				return "-"
+			}
+			return fmt.Sprint(r.After(b.Time))
+		}
+		return fmt.Sprintf("vt=%s gtlocked=%s gtprop=%s", cls, gt(lb), gt(pb))
 	case "addev":
 		if a.state.Validators == nil {
 			return "bad-op"
@@ -1168,6 +1215,15 @@ func oracle(c core.Case, out []string) []core.Finding {
 			if kind == "create" && o["fits"] == "false" && m["budget"] != "exempt" {
 				fp := "CreateProposalBlock.block-exceeds-MaxBytes." + m["scn"]
 				fs = append(fs, core.Finding{Fingerprint: fp, Desc: fmt.Sprintf("CreateProposalBlock built a block of %s bytes although MaxDataBytes(%s) did not panic (scenario %s)", o["size"], o["maxdata"], m["scn"])})
+			}
+		case "votetime":
+			// BFT time: a correct validator's vote is stamped later than the block it can be for - the
+			// block it is locked on, else the round's proposal
+			if m["locked"] != "nil" && o["gtlocked"] == "false" {
+				fs = append(fs, core.Finding{Fingerprint: "voteTime.not-after-locked-block", Desc: "a validator locked on a block stamps its vote not later than that block's time (locked " + m["locked"] + "ns, proposal " + m["prop"] + "ns from now): " + out[i]})
+			}
+			if m["locked"] == "nil" && m["prop"] != "nil" && o["gtprop"] == "false" {
+				fs = append(fs, core.Finding{Fingerprint: "voteTime.not-after-proposal-block", Desc: "a validator stamps its vote for the proposal not later than the proposal's time: " + out[i]})
 			}
 		case "addev":
 			if m["expect"] == "ok" && out[i] != "ok" {
@@ -2245,6 +2301,22 @@ func genAll(r *rand.Rand, tier string, emit func(core.Case)) {
 	for i, al := range []int{32, 182, 183, 189, 190} {
 		g := &gen{r: r, id: 2000000 + i, keys: map[string]ed25519.PrivKey{}, committed: map[string]bool{}}
 		emit(g.extreme(al))
+	}
+	// vote timestamps: locked / proposal block times around the local clock (hours away from it, so
+	// that "now" is unambiguous), also a clock that is behind both
+	{
+		var ops []string
+		offs := []string{"nil", "-7200000000000", "-3600000000000", "3600000000000", "7200000000000", "10800000000000"}
+		for _, l := range offs {
+			for _, p := range offs {
+				if l != "nil" && l == p {
+					continue
+				}
+				ops = append(ops, fmt.Sprintf("votetime locked=%s prop=%s iota=%d", l, p, []int64{1, 1000, 60000}[r.Intn(3)]))
+			}
+		}
+		r.Shuffle(len(ops), func(i, j int) { ops[i], ops[j] = ops[j], ops[i] })
+		emit(core.Case{Kind: "votetime", Ops: ops})
 	}
 	// malformed lines
 	emit(core.Case{Kind: "malformed", Ops: []string{"validate", "block vb=11", "state chain=zz", "apply bid=-/0/-", "set f=lbh v=1", "make h=1"}})
